@@ -391,6 +391,133 @@ def api_request(t):
     raise KeyError(kind)
 
 
+# --------------------------------------------------------------------------- histories (C17)
+def _variant(a, how):
+    """the same mathematical values in another representation"""
+    a = np.asarray(a, dtype=np.float64)
+    if how == "list":
+        return a.tolist()
+    if how == "tuple":
+        return tuple(map(tuple, a)) if a.ndim == 2 else tuple(a.tolist())
+    if how == "f32":
+        return a.astype(np.float32)
+    if how == "int":
+        return a.astype(np.int64)
+    if how == "forder":
+        return np.asfortranarray(a)
+    if how == "strided":
+        big = np.zeros(tuple(2 * n for n in a.shape))
+        big[tuple(slice(None, None, 2) for _ in a.shape)] = a
+        return big[tuple(slice(None, None, 2) for _ in a.shape)]
+    if how == "readonly":
+        b = a.copy()
+        b.flags.writeable = False
+        return b
+    return a.copy()
+
+
+def _digest_tt(g, grad):
+    d = [np.array(g.grid), np.float64(g._vzero), np.asarray(g.source, float), np.asarray(g.origin, float),
+         np.asarray(g.gridsize, float)]
+    if grad:
+        d.append(np.array(g._gradient))
+    return d
+
+
+def _eq_digest(a, b):
+    return len(a) == len(b) and all(_same(x, y) for x, y in zip(a, b))
+
+
+@op
+def history(t):
+    """random API history on one (possibly deep-copied) object; every query is compared with the
+    same query on a fresh object built from the current (grid, spacing, origin) and canonical
+    float64 C-ordered arguments; arguments and object state are snapshotted around every call."""
+    import copy
+    nd = len(t["gridsize"])
+    cls = fteikpy.Eikonal2D if nd == 2 else fteikpy.Eikonal3D
+    grid0 = _variant(t["grid"], t.get("grid_repr", "copy"))
+    e = cls(grid0, _variant(t["gridsize"], t.get("gs_repr", "list")) if t.get("gs_repr") else t["gridsize"],
+            _variant(t["origin"], t.get("origin_repr", "copy")))
+    problems = []
+    if not _same(np.asarray(grid0, dtype=np.float64), np.asarray(t["grid"], dtype=np.float64)):
+        problems.append(("construct", "input grid changed"))
+    nq = 0
+    for k, op_ in enumerate(t["ops"]):
+        kind = op_["kind"]
+        if kind == "deepcopy":
+            e = copy.deepcopy(e)
+            continue
+        if kind == "copy":
+            e = copy.copy(e)
+            continue
+        if kind == "resample":
+            e.resample(tuple(op_["shape"]), op_.get("method", "linear"))
+            continue
+        if kind == "smooth":
+            e.smooth(op_["sigma"])
+            continue
+        # queries
+        state0 = (np.array(e.grid), tuple(e.gridsize), np.array(e.origin))
+        fresh = cls(np.array(e.grid), tuple(e.gridsize), np.array(e.origin))
+        nq += 1
+        if kind == "solve":
+            src_c = np.asarray(op_["sources"], dtype=np.float64)
+            arg = _variant(src_c, op_.get("repr", "copy"))
+            arg0 = copy.deepcopy(arg)
+            kw = dict(nsweep=op_.get("nsweep", 2), return_gradient=op_.get("grad", False))
+            st, r = _call(lambda: e.solve(arg, **kw))
+            st2, r2 = _call(lambda: fresh.solve(src_c.copy(), **kw))
+            if isinstance(arg, np.ndarray) and not (_same(arg, arg0) and arg.dtype == arg0.dtype):
+                problems.append((k, "solve modified its sources argument"))
+            if st != st2:
+                problems.append((k, f"solve status {st} vs fresh {st2}"))
+            elif st == "ok":
+                a = r if isinstance(r, list) else [r]
+                b = r2 if isinstance(r2, list) else [r2]
+                if len(a) != len(b) or not all(_eq_digest(_digest_tt(x, kw["return_gradient"]), _digest_tt(y, kw["return_gradient"]))
+                                               for x, y in zip(a, b)):
+                    problems.append((k, "solve result differs from the same call on a fresh object"))
+                if "points" in op_:
+                    pts_c = np.asarray(op_["points"], dtype=np.float64)
+                    parg = _variant(pts_c, op_.get("prepr", "copy"))
+                    parg0 = copy.deepcopy(parg)
+                    v1 = _call(lambda: a[0](parg))
+                    v2 = _call(lambda: b[0](pts_c.copy()))
+                    if v1[0] != v2[0] or (v1[0] == "ok" and not _same(v1[1], v2[1])):
+                        problems.append((k, "point evaluation differs"))
+                    if isinstance(parg, np.ndarray) and not _same(parg, parg0):
+                        problems.append((k, "evaluation modified its points argument"))
+                    g1 = np.array(a[0].grid)
+                    _ = a[0](parg)
+                    if not _same(g1, a[0].grid):
+                        problems.append((k, "evaluation modified the traveltime grid"))
+                    if kw["return_gradient"]:
+                        rk = dict(op_.get("ray_kw", {}))
+                        q1 = _call(lambda: a[0].raytrace(parg, **rk))
+                        q2 = _call(lambda: b[0].raytrace(pts_c.copy(), **rk))
+                        same = q1[0] == q2[0] and (q1[0] != "ok" or (
+                            all(_same(x, y) for x, y in zip(q1[1], q2[1])) if isinstance(q1[1], list) else _same(q1[1], q2[1])))
+                        if not same:
+                            problems.append((k, "raytrace differs"))
+                        if not _same(np.array(a[0]._gradient), np.array(b[0]._gradient)):
+                            problems.append((k, "raytrace/gradient access modified the gradient"))
+        elif kind == "call":
+            pts_c = np.asarray(op_["points"], dtype=np.float64)
+            parg = _variant(pts_c, op_.get("repr", "copy"))
+            v1 = _call(lambda: e(parg))
+            v2 = _call(lambda: fresh(pts_c.copy()))
+            if v1[0] != v2[0] or (v1[0] == "ok" and not _same(v1[1], v2[1])):
+                problems.append((k, "model evaluation differs"))
+        state1 = (np.array(e.grid), tuple(e.gridsize), np.array(e.origin))
+        if not (_same(state0[0], state1[0]) and state0[1] == state1[1] and _same(state0[2], state1[2])):
+            problems.append((k, f"{kind} changed the solver object"))
+        extra = set(vars(e)) - {"_grid", "_gridsize", "_origin"}
+        if extra:
+            problems.append((k, f"{kind} left extra attributes on the object: {sorted(extra)}"))
+    return {"problems": problems[:8], "n_problems": len(problems), "queries": nq}
+
+
 def run_task(t):
     lim = float(t.get("timeout", 20.0))
     err = np.seterr(all="ignore")
